@@ -46,8 +46,8 @@ var c06Check = &impCheck{
 	bfsDepth: [2]int{4, 5},
 	dev:      [2]int{2, 4},
 	fams: []*family{
-		c06Family("path", "a.b/c", []string{"NewFilePath", "NewFilePathName"}, []string{"a.b/c/", "a.b/c/x", "x/a.b/c", "a.b/C", "b/c", "c"}),
-		c06Family("single", "c", []string{"NewFilePathName", "NewFilePath"}, []string{"c/", "a/c", "C1", "c/c"}),
+		c06Family("path", "a.b/c", []string{"NewFilePath", "NewFilePathName", "NewFilePathName:c_test"}, []string{"a.b/c/", "a.b/c/x", "x/a.b/c", "a.b/C", "b/c", "c", "a.b/c_test", "app/vendor/a.b/c"}),
+		c06Family("single", "c", []string{"NewFilePathName", "NewFilePath", "NewFilePathName:_test"}, []string{"c/", "a/c", "C1", "c/c", "c_test", "vendor/c"}),
 		c06Family("slash", "x/y/c/", []string{"NewFilePath", "NewFilePathName"}, []string{"x/y/c", "x/y/c//", "y/c/"}),
 		c06Family("version", "x/foo/v2", []string{"NewFilePath", "NewFilePathName"}, []string{"x/foo", "x/foo/v3", "x/foo/v2/sub", "foo/v2"}),
 	},
